@@ -4,7 +4,8 @@
 * by Python `ast`, searched by name inside `heartbeat_timer_task` (at any nesting depth): the three
   thresholds `tm - self._message_last_time > self._heartbeat_period - 1`,
   `tm - self._message_last_time > self._heartbeat_period * 2`,
-  `tm - self._test_req_id > self._heartbeat_period * 2` and the two sleep periods.
+  `tm - self._test_req_id > self._heartbeat_period * 2 and tm - self._message_last_time > self._heartbeat_period * 2`
+  and the two sleep periods.
 
 A threshold is emitted as a pair (mul, add_ms) meaning  mul * hb seconds + add_ms milliseconds.
 Fail-soft (DESIGN.md 3.1): a shape that is not recognised is recorded in MISSES, the committed
@@ -23,6 +24,7 @@ DEFAULTS = {
     "probe": (1, -1000),     # hb - 1
     "dead": (2, 0),          # hb * 2   (message-last-time test)
     "treq": (2, 0),          # hb * 2   (TestRequest test)
+    "treq_silence": (2, 0),  # hb * 2   (TestRequest test: and nothing valid received for that long)
     "idle_ms": 1000,
     "tick_ms": 1000,
 }
@@ -93,11 +95,15 @@ def extract(src):
         except Exception:
             misses.append("watchdog_threshold_" + key)
 
-    if len(mlt) == 2:
+    if len(mlt) in (2, 3):
         take("probe", mlt, 0)
         take("dead", mlt, 1)
+        if len(mlt) == 3:
+            take("treq_silence", mlt, 2)
+        else:
+            misses.append("watchdog_threshold_treq_silence")
     else:
-        misses += ["watchdog_threshold_probe", "watchdog_threshold_dead"]
+        misses += ["watchdog_threshold_probe", "watchdog_threshold_dead", "watchdog_threshold_treq_silence"]
     if len(trq) == 1:
         take("treq", trq, 0)
     else:
@@ -129,7 +135,7 @@ def generate():
         t += "Definition ST_%s : Z := %d.\n" % (name, int(getattr(ConnectionState, name)))
     t += "\n(* thresholds of heartbeat_timer_task as (mul, add_ms): mul * hb s + add_ms ms  (ast%s) *)\n" % (
         "" if not misses else "; MISSED, defaults kept: " + ", ".join(misses))
-    for key in ("probe", "dead", "treq"):
+    for key in ("probe", "dead", "treq", "treq_silence"):
         t += "Definition thr_%s : Z * Z := (%d, %d).\n" % (key, vals[key][0], vals[key][1])
     t += "Definition idle_ms : Z := %d.\nDefinition tick_ms : Z := %d.\n" % (vals["idle_ms"], vals["tick_ms"])
     t += "Definition translator_misses : nat := %d.\n" % len(misses)
